@@ -258,3 +258,30 @@ func BadHandOverReuse(in chan int, out chan []int) {
 	}
 	out <- batch
 }
+
+// ---- G1 with aliases ----
+
+// Aliased reads the map under the lock but iterates its alias after unlocking.
+type Aliased struct {
+	mu sync.RWMutex
+	m  map[string]int
+}
+
+func NewAliased() *Aliased { return &Aliased{m: map[string]int{}} }
+
+func (g *Aliased) Put(k string, v int) {
+	g.mu.Lock()
+	g.m[k] = v
+	g.mu.Unlock()
+}
+
+func (g *Aliased) Sum() int {
+	g.mu.RLock()
+	m := g.m
+	g.mu.RUnlock()
+	n := 0
+	for _, v := range m {
+		n += v
+	}
+	return n
+}
